@@ -107,6 +107,10 @@ func isPureExternal(fn *ssa.Function) bool {
 
 func (vc *VC) execCall(fr *Frame, st *State, pc string, site ssa.Instruction, c *ssa.CallCommon) Sym {
 	if b, ok := c.Value.(*ssa.Builtin); ok {
+		// builtins can carry program-point clauses too: `assert at call append#k :: ...` (k-th append in the source)
+		if fr.spec != nil && len(fr.spec.Asserts) > 0 {
+			vc.atCall(fr, st, pc, b.Name(), vc.callOrdinal(fr, site, b.Name()), site)
+		}
 		return vc.execBuiltin(fr, st, pc, site, c, b)
 	}
 	var callee *ssa.Function
@@ -407,7 +411,9 @@ func (vc *VC) callOrdinal(fr *Frame, site ssa.Instruction, short string) int {
 				if cc == nil {
 					continue
 				}
-				if _, isB := cc.Value.(*ssa.Builtin); isB {
+				if bi, isB := cc.Value.(*ssa.Builtin); isB {
+					n++
+					by[bi.Name()] = append(by[bi.Name()], cs{in, in.Pos(), n})
 					continue
 				}
 				var callee *ssa.Function
